@@ -60,7 +60,10 @@ class CvoqramInitialize(InitializeSparse):
         if label is None:
             label = "CVOSP"
 
-        super().__init__("cvoqram", self.num_qubits, params.items(), label=label)
+        # one flag qubit, the data register and, with auxiliary qubits, n-1 ancillas
+        self.num_data_qubits = self.num_qubits
+        width = 2 * self.num_data_qubits if self.with_aux else self.num_data_qubits + 1
+        super().__init__("cvoqram", width, params.items(), label=label)
 
     def _define(self):
         self.definition = self._define_initialize()
@@ -68,9 +71,9 @@ class CvoqramInitialize(InitializeSparse):
     def _define_initialize(self):
         """Initialize quantum registers"""
 
-        self.anc = QuantumRegister(self.num_qubits - 1, name="anc")
+        self.anc = QuantumRegister(self.num_data_qubits - 1, name="anc")
         self.aux = QuantumRegister(1, name="u")
-        self.memory = QuantumRegister(self.num_qubits, name="m")
+        self.memory = QuantumRegister(self.num_data_qubits, name="m")
         if self.with_aux:
             circuit = QuantumCircuit(self.aux, self.anc, self.memory)
         else:
@@ -113,11 +116,11 @@ class CvoqramInitialize(InitializeSparse):
         circuit.rccx(
             self.memory[lst_ctrl_reversed[0]],
             self.memory[lst_ctrl_reversed[1]],
-            self.anc[self.num_qubits - 2],
+            self.anc[self.num_data_qubits - 2],
         )
 
         tof = {}
-        i = self.num_qubits - 1
+        i = self.num_data_qubits - 1
         for ctrl in lst_ctrl_reversed[2:]:
             circuit.rccx(self.anc[i - 1], self.memory[ctrl], self.anc[i - 2])
             tof[ctrl] = [i - 1, i - 2]
@@ -129,7 +132,7 @@ class CvoqramInitialize(InitializeSparse):
             circuit.rccx(self.anc[tof[ctrl][0]], self.memory[ctrl], self.anc[tof[ctrl][1]])
 
         circuit.rccx(
-            self.memory[lst_ctrl[-1]], self.memory[lst_ctrl[-2]], self.anc[self.num_qubits - 2]
+            self.memory[lst_ctrl[-1]], self.memory[lst_ctrl[-2]], self.anc[self.num_data_qubits - 2]
         )
 
     def _load_superposition(self, circuit, feature, control, memory):
